@@ -13,7 +13,7 @@ import (
 )
 
 func init() {
-	register("C13", checkC13, "Write-effect freedom by a derived-pointer (taint) analysis over SSA. Sources: every load of a []byte / [N]byte field of a response struct or of Registers (the payload). Roots: all value-receiver methods of Registers, Field.ExtractFrom, BuilderRequest.ExtractFields/AsRegisters/extract*Fields, the responses' AsRegisters/IsCoilSet/IsInputSet and isBitSet. In every module function reachable from a root (VTA call graph), with taint propagated through slicing, phis, conversions, struct/tuple flow and module-local calls (parameters and results): R13.1 no store through a payload-derived pointer, no copy/append with a payload-derived destination, no hand-over of a payload-derived slice to code outside a frozen read-only allow-list; R13.2 no store to a package-level variable and no store through a pointer parameter or receiver (no hidden decoder state). Together every accessor is a pure function of (payload bytes, configuration), which gives repeatability and order independence for all call sequences. R13.2 additionally runs the shared-state scan over the same roots: any use of a package-level variable that is not constant after initialisation (a shared decode buffer, a pool whose objects leave the call, a cache). R13.3 = C05 R5.4: every reported FieldValue is built afresh from (this field, the value and error just obtained).")
+	register("C13", checkC13, "Write-effect freedom by a derived-pointer (taint) analysis over SSA. Sources: every load of a []byte / [N]byte field of a response struct or of Registers (the payload). Roots: all value-receiver methods of Registers, Field.ExtractFrom, BuilderRequest.ExtractFields/AsRegisters/extract*Fields, the responses' AsRegisters/IsCoilSet/IsInputSet and isBitSet. In every module function reachable from a root (VTA call graph), with taint propagated through slicing, phis, conversions, struct/tuple flow and module-local calls (parameters and results): R13.1 no store through a payload-derived pointer, no copy/append with a payload-derived destination, no hand-over of a payload-derived slice to code outside a frozen read-only allow-list; R13.2 no store to a package-level variable and no store through a pointer parameter or receiver (no hidden decoder state). Together every accessor is a pure function of (payload bytes, configuration), which gives repeatability and order independence for all call sequences. R13.2 additionally runs the shared-state scan over the same roots: any use of a package-level variable that is not constant after initialisation (a shared decode buffer, a pool whose objects leave the call, a cache). R13.3 = C05 R5.4: every reported FieldValue is built afresh from (this field, the value and error just obtained). R13.4 every method declared on a reply type or on Registers (not only the named accessors) is free of payload writes and receiver stores. R13.5 nothing reachable from the extraction methods of BuilderRequest writes memory of the request's own field list. The analysis follows slice-to-array-pointer conversions.")
 }
 
 type taintCtx struct {
